@@ -66,10 +66,15 @@ def law_configs(draw, classes=("metropolis", "gibbs", "pca", "hmc", "ensemble"),
             lo = [m_ - draw(st.floats(0.2, 2.5)) * s for m_, s in zip(mean, sd)]
             hi = [m_ + draw(st.floats(0.2, 2.5)) * s for m_, s in zip(mean, sd)]
             cfg["box_abs"] = [lo, hi]
-            if cls in ("gibbs", "metropolis") and draw(st.booleans()):
-                # the same parameters are also declared non-negative: the support is [max(lower, 0), upper]
+            if cls in ("gibbs", "metropolis") and d <= 2 and draw(st.booleans()):
+                # the same parameters are also declared non-negative: the support is [max(lower, 0), upper]. The density is centred at
+                # or above zero so that the support keeps a share of its mass (the exact reference sampler works by rejection)
                 cfg["nonneg_too"] = draw(st.sampled_from(["before", "after"]))
-                cfg["box_abs"] = [lo, [max(h, 0.3 * s_) for h, s_ in zip(hi, sd)]]
+                mean = [abs(m_) for m_ in mean]
+                cfg["target"]["mean"] = mean
+                lo = [m_ - draw(st.floats(0.2, 2.5)) * s_ for m_, s_ in zip(mean, sd)]
+                hi = [m_ + draw(st.floats(0.3, 2.5)) * s_ for m_, s_ in zip(mean, sd)]
+                cfg["box_abs"] = [lo, hi]
     if cls == "hmc":
         cfg["hmc"] = {"eps_log": draw(st.floats(-0.5, 0.25)), "mass": draw(st.sampled_from(["default", "scalar", "vector", "matrix", "matrix"])),
                       "mass_log": [draw(st.sampled_from([0.9, -0.9, draw(st.floats(-1.0, 1.0))])) for _ in range(d)], "mass_corr": draw(st.sampled_from([0.0, 0.45, -0.45, 0.65, draw(st.floats(-0.68, 0.68))])), "grad": True}
